@@ -68,6 +68,12 @@ pub struct Case {
     /// a fresh query node per query (otherwise one node is reused and warms up)
     pub fresh_each: bool,
     pub adaptive: bool,
+    /// run a real compaction cycle (low thresholds) between ingest and the queries
+    #[serde(default)]
+    pub compact: bool,
+    /// record true per-column min / max / has_nulls statistics in the catalog (object-store catalog only)
+    #[serde(default)]
+    pub with_stats: bool,
 }
 
 struct Ctx<'a> {
@@ -265,6 +271,27 @@ pub fn exec(case: &Case) -> Outcome {
                 return out;
             }
         };
+        if case.compact {
+            use cardinalsin::compactor::{Compactor, CompactorConfig};
+            let cfg = CompactorConfig { l0_merge_threshold: 2, l1_target_size: 1, l2_target_size: 1, max_levels: 2, sharding_enabled: false, ..Default::default() };
+            let before = env.metadata.list_chunks().await.map(|v| v.len()).unwrap_or(0);
+            let comp = Compactor::new(cfg, env.store.clone(), env.metadata.clone(), storage_config(), Arc::new(cardinalsin::sharding::ShardMonitor::new(Default::default())));
+            if let Err(e) = comp.run_compaction_cycle().await {
+                out.set_fail("compaction-cycle-failed", format!("{:?}", e));
+                return out;
+            }
+            let after = env.metadata.list_chunks().await.map(|v| v.len()).unwrap_or(0);
+            if after < before {
+                out.class("data-compacted-before-querying");
+            }
+        }
+        if case.with_stats && d.backend % 2 == 1 {
+            if let Err(e) = record_stats(&env).await {
+                out.set_fail("harness:stats-injection-failed", e);
+                return out;
+            }
+            out.class("catalog-carries-column-statistics");
+        }
         out.class(if d.ts_type % 2 == 0 { "ts:int64" } else { "ts:timestamp" });
         out.class(format!("age:{}min", AGES_MIN[d.age as usize % 4]));
         let chunks = env.metadata.list_chunks().await.unwrap_or_default();
@@ -377,6 +404,59 @@ pub fn exec(case: &Case) -> Outcome {
     })
 }
 
+/// write true min / max / has_nulls statistics of host, metric_name, value_f64 (and zone_x) into the catalog
+async fn record_stats(env: &Env) -> Result<(), String> {
+    use cardinalsin::metadata::{ColumnStats, ObjectStoreMetadataClient, ObjectStoreMetadataConfig};
+    let client = ObjectStoreMetadataClient::new(env.store.clone(), ObjectStoreMetadataConfig::default());
+    let mut md = client.load_chunk_metadata().await.map_err(|e| format!("{:?}", e))?;
+    for (path, ext) in md.iter_mut() {
+        let data = env.store.get(&path.clone().into()).await.map_err(|e| e.to_string())?.bytes().await.map_err(|e| e.to_string())?;
+        let batches = crate::rows::decode_parquet(data)?;
+        for col in ["host", "metric_name", "zone_x", "value_f64"] {
+            let mut vals: Vec<String> = Vec::new();
+            let mut fvals: Vec<f64> = Vec::new();
+            let mut nulls = false;
+            let mut present = false;
+            for b in &batches {
+                if let Some(c) = b.column_by_name(col) {
+                    present = true;
+                    for r in 0..b.num_rows() {
+                        match crate::rows::cell(c, r, false) {
+                            None => nulls = true,
+                            Some(v) => {
+                                if col == "value_f64" {
+                                    use arrow_array::cast::AsArray;
+                                    fvals.push(c.as_primitive::<arrow_array::types::Float64Type>().value(r));
+                                } else {
+                                    vals.push(v.trim_start_matches("S:").to_string());
+                                }
+                            }
+                        }
+                    }
+                }
+            }
+            if !present {
+                continue;
+            }
+            if col == "value_f64" {
+                if fvals.is_empty() {
+                    continue;
+                }
+                let mn = fvals.iter().cloned().fold(f64::INFINITY, f64::min);
+                let mx = fvals.iter().cloned().fold(f64::NEG_INFINITY, f64::max);
+                ext.column_stats.insert(col.to_string(), ColumnStats { min: serde_json::json!(mn), max: serde_json::json!(mx), has_nulls: nulls });
+            } else {
+                if vals.is_empty() {
+                    continue;
+                }
+                vals.sort_by(|a, b| a.as_bytes().cmp(b.as_bytes()));
+                ext.column_stats.insert(col.to_string(), ColumnStats { min: serde_json::json!(vals[0]), max: serde_json::json!(vals[vals.len() - 1]), has_nulls: nulls });
+            }
+        }
+    }
+    client.save_chunk_metadata(&md).await.map_err(|e| format!("{:?}", e))
+}
+
 /// hull [lo, hi] of the window (for the non-triviality rule only)
 fn window_hull(d: &Dataset, now: i64, w: &Win) -> (i64, i64) {
     let c = Ctx { d, now, allow_now_rel: false };
@@ -389,6 +469,96 @@ fn window_hull(d: &Dataset, now: i64, w: &Win) -> (i64, i64) {
             (l1.min(l2), h1.max(h2))
         }
     }
+}
+
+// ---- process age: nothing may be frozen at the first statement a process analyses ----------
+
+#[derive(Clone, Debug, Serialize, Deserialize)]
+pub struct AgedCase {
+    pub rows: u8,
+    pub chunks: u8,
+    pub backend: u8,
+    /// which now()-relative window shapes to ask
+    pub shapes: Vec<u8>,
+}
+
+pub fn exec_aged(case: &AgedCase) -> Outcome {
+    let rt = rt_plain();
+    rt.block_on(async {
+        let mut out = Outcome::pass();
+        out.nontrivial = true;
+        // 1. a first statement with a now()-relative bound is analysed in this process
+        {
+            let d0 = Dataset { ts_type: 1, age: 3, span_h: 0, rows: vec![QRow { minute: 1, jitter: 0, metric: 0, host: None, zone: None, value: 1, chunk: 0 }], custom_label: false, backend: 0 };
+            let now0 = chrono::Utc::now().timestamp_nanos_opt().unwrap();
+            let store: Arc<dyn object_store::ObjectStore> = Arc::new(object_store::memory::InMemory::new());
+            if let Ok(env0) = ingest(store, 0, &d0.batches(now0), d0.schema()).await {
+                if let Ok(n0) = query_node(&env0, false).await {
+                    let _ = n0.query("SELECT count(*) FROM metrics WHERE timestamp >= now() - interval '2 days' AND timestamp <= now()").await;
+                }
+            }
+        }
+        // 2. the process ages
+        std::thread::sleep(std::time::Duration::from_millis(1100));
+        // 3. data stamped after that first statement (0.3 s .. ~1 s old)
+        let now = chrono::Utc::now().timestamp_nanos_opt().unwrap();
+        let n = 2 + (case.rows % 6) as usize;
+        let nchunks = 1 + (case.chunks % 3) as usize;
+        let schema = Dataset { ts_type: 1, age: 0, span_h: 0, rows: vec![], custom_label: false, backend: case.backend }.schema();
+        let mut batches = Vec::new();
+        for c in 0..nchunks {
+            let idx: Vec<usize> = (0..n).filter(|i| i % nchunks == c).collect();
+            if idx.is_empty() {
+                continue;
+            }
+            use arrow_array::{ArrayRef, Float64Array, Int64Array, RecordBatch, StringArray, TimestampNanosecondArray};
+            let ts: Vec<i64> = idx.iter().map(|i| now - 300_000_000 - (*i as i64) * 100_000_000).collect();
+            let cols: Vec<ArrayRef> = vec![
+                Arc::new(TimestampNanosecondArray::from(ts).with_timezone("UTC")),
+                Arc::new(StringArray::from(idx.iter().map(|i| QMETRICS[i % 3]).collect::<Vec<_>>())),
+                Arc::new(StringArray::from(idx.iter().map(|i| Some(HOSTS[i % 4])).collect::<Vec<_>>())),
+                Arc::new(Float64Array::from(idx.iter().map(|i| Some(*i as f64)).collect::<Vec<_>>())),
+                Arc::new(Int64Array::from(idx.iter().map(|i| *i as i64).collect::<Vec<_>>())),
+            ];
+            batches.push(RecordBatch::try_new(schema.clone(), cols).unwrap());
+        }
+        let store: Arc<dyn object_store::ObjectStore> = Arc::new(object_store::memory::InMemory::new());
+        let env = match ingest(store, case.backend, &batches, schema.clone()).await {
+            Ok(e) => e,
+            Err(e) => {
+                out.set_fail("ingest-failed", e);
+                return out;
+            }
+        };
+        let node = query_node(&env, false).await.expect("node");
+        for sh in &case.shapes {
+            let w = match sh % 5 {
+                0 => "timestamp >= now() - interval '1 hour' AND timestamp <= now()",
+                1 => "now() >= timestamp AND timestamp > now() - interval '10 minutes'",
+                2 => "timestamp BETWEEN now() - interval '1 day' AND now()",
+                3 => "timestamp <= now() + interval '1 minute' AND timestamp >= now() - interval '5 minutes'",
+                _ => "NOT (timestamp > now()) AND NOT (timestamp < now() - interval '30 minutes')",
+            };
+            let sql = format!("SELECT rid FROM metrics WHERE {}", w);
+            let want = reference(&sql, &env.all, schema.clone()).await;
+            let got = node.query(&sql).await;
+            match (want, got) {
+                (Ok(w2), Ok(g)) => {
+                    let (wr, gr) = (result_rows(&w2), result_rows(&g));
+                    if wr != gr {
+                        out.set_fail("rows-missing:now-relative-window-in-an-aged-process", format!("{}\n expected {} rows, got {} (the process analysed its first statement 1.1 s before the data was written)", sql, wr.len(), gr.len()));
+                        return out;
+                    }
+                }
+                (Ok(_), Err(e)) => {
+                    out.set_fail("error-where-reference-answers:aged-process", format!("{}: {:?}", sql, e));
+                    return out;
+                }
+                _ => {}
+            }
+        }
+        out
+    })
 }
 
 fn bound() -> impl Strategy<Value = Bound> {
@@ -433,8 +603,8 @@ fn proj() -> impl Strategy<Value = Proj> {
 }
 
 fn strategy(t: Tier) -> BoxedStrategy<Case> {
-    (dataset(t.pick(40usize, 60usize)), prop::collection::vec((win(), rest(), proj()).prop_map(|(win, rest, proj)| Query { win, rest, proj }), 1..t.pick(6usize, 10usize)), any::<bool>(), prop::bool::weighted(0.3))
-        .prop_map(|(data, queries, fresh_each, adaptive)| Case { data, queries, fresh_each, adaptive })
+    (dataset(t.pick(40usize, 60usize)), prop::collection::vec((win(), rest(), proj()).prop_map(|(win, rest, proj)| Query { win, rest, proj }), 1..t.pick(6usize, 10usize)), any::<bool>(), prop::bool::weighted(0.3), prop::bool::weighted(0.3), prop::bool::weighted(0.4))
+        .prop_map(|(data, queries, fresh_each, adaptive, compact, with_stats)| Case { data, queries, fresh_each, adaptive, compact, with_stats })
         .boxed()
 }
 
@@ -442,8 +612,18 @@ pub fn def() -> PropDef {
     PropDef {
         id: "C04",
         level: "exploration",
-        rule: "datasets of 4-40 (thorough 60) rows over 1-6 hours, newest row 2 min / 95 min / 5 h / 30 h old relative to the wall clock, 3 metrics, nullable host label, optional label outside the built-in schema, exactly representable values, Int64 or Timestamp(ns) timestamps, rows split into 1-6 chunks through the real Ingester, Local or object-store catalog; 1-5 (9) queries each: WHERE = window AND rest, window finite by construction (>=/>/<=/< in either operand order, BETWEEN, equality in either order, OR of windows / equalities, NOT of the opposite bound; integer literals for Int64 data, TIMESTAMP '..' / to_timestamp_nanos() / now()-interval for Timestamp data; bounds on / one ns off row timestamps), rest = label / metric / value predicates with AND/OR/NOT, projection in {*, columns, count(*), count/sum/min/max/avg/count distinct with optional GROUP BY, DISTINCT}; each query runs cold and warm, on a fresh or a reused node, adaptive indexing on/off. Oracle = same SQL on a MemTable of all ingested rows, multiset equality. Non-trivial = non-empty true answer while some chunk lies wholly outside the window or outside the last hour.",
+        rule: "datasets of 4-40 (thorough 60) rows over 1-6 hours, newest row 2 min / 95 min / 5 h / 30 h old relative to the wall clock, 3 metrics, nullable host label, optional label outside the built-in schema, exactly representable values, Int64 or Timestamp(ns) timestamps, rows split into 1-6 chunks through the real Ingester, Local or object-store catalog; 1-5 (9) queries each: WHERE = window AND rest, window finite by construction (>=/>/<=/< in either operand order, BETWEEN, equality in either order, OR of windows / equalities, NOT of the opposite bound; integer literals for Int64 data, TIMESTAMP '..' / to_timestamp_nanos() / now()-interval for Timestamp data; bounds on / one ns off row timestamps), rest = label / metric / value predicates with AND/OR/NOT, projection in {*, columns, count(*), count/sum/min/max/avg/count distinct with optional GROUP BY, DISTINCT}; each query runs cold and warm, on a fresh or a reused node, adaptive indexing on/off; 30 % of the datasets go through a real compaction cycle first (merged multi-hour chunks), 40 % of the object-store catalogs carry true per-column statistics (so the SQL -> predicate conversion and statistics pruning take part). Oracle = same SQL on a MemTable of all ingested rows, multiset equality. aged-process: a first now()-relative statement is analysed, the process ages 1.1 s, then data stamped after that instant is ingested and asked for with now()-relative windows (nothing may be frozen at the first statement of a process). Non-trivial = non-empty true answer while some chunk lies wholly outside the window or outside the last hour.",
         assumptions: &["DataFusion's evaluator is the trusted reference", "now()-relative bounds are only generated when the wall clock is 3-45 s into a minute, so the two evaluations of now() cannot straddle a row"],
-        subs: || vec![Box::new(Sub::<Case> { name: "differential", cases: |t| t.scale(3_000, 10), strategy, exec })],
+        subs: || {
+            vec![
+                Box::new(Sub::<Case> { name: "differential", cases: |t| t.scale(3_000, 10), strategy, exec }),
+                Box::new(Sub::<AgedCase> {
+                    name: "aged-process",
+                    cases: |t| t.pick(32, 160),
+                    strategy: |_| (0u8..6, 0u8..3, 0u8..2, prop::collection::vec(0u8..5, 1..4)).prop_map(|(rows, chunks, backend, shapes)| AgedCase { rows, chunks, backend, shapes }).boxed(),
+                    exec: exec_aged,
+                }),
+            ]
+        },
     }
 }
